@@ -1,3 +1,4 @@
+use crate::engine::core::filter::condition::CompareOp;
 use crate::engine::core::read::flow::{BatchSchema, BatchSender, FlowContext, FlowOperatorError};
 use crate::engine::core::{
     CandidateZone, ConditionEvaluatorBuilder, Event, EventSorter, ExecutionStep, QueryCaches,
@@ -114,7 +115,20 @@ impl<'a> SegmentQueryRunner<'a> {
         let query_ctx = QueryContext::from_command(&self.plan.command);
         let candidate_zones = self.hydrate_zones(&query_ctx).await;
         let eval_limit = self.determine_eval_limit(&query_ctx);
-        let evaluator = ConditionEvaluatorBuilder::build_from_plan(self.plan);
+        let mut evaluator = ConditionEvaluatorBuilder::build_from_plan(self.plan);
+        // build_from_plan skips the special-field conditions for aggregations. Zones are
+        // partitioned per event type but mix contexts, and pruning by context only selects
+        // candidate zones, so the rows of other contexts must still be filtered out here
+        // (the aggregation projection loads context_id when FOR is present).
+        if self.plan.aggregate_plan.is_some() {
+            if let Some(context_id) = self.plan.context_id() {
+                evaluator.add_string_condition(
+                    "context_id".to_string(),
+                    CompareOp::Eq,
+                    context_id.to_string(),
+                );
+            }
+        }
 
         // For aggregate queries, ordering happens after aggregation in AggregateStreamMerger.
         // For non-aggregate queries, ordering can happen at the shard level.
